@@ -9,7 +9,7 @@
    the scheduler are the quantified label list: nothing is assumed about them unless a theorem says so.
    [s_log s] is the history (newest first); Spec.v phrases the property over [rev (s_log s)]. *)
 From GocqlV Require Import Lib.Base Gen.Consts C14.Model C14.Spec.
-From GocqlV Require Import C14.Proofs1 C14.Proofs2 C14.Proofs3 C14.Proofs4 C14.Proofs5 C14.Proofs6 C14.Proofs7 C14.Proofs8 C14.Proofs9.
+From GocqlV Require Import C14.Proofs1 C14.Proofs2 C14.Proofs3 C14.Proofs4 C14.Proofs5 C14.Proofs6 C14.Proofs7 C14.Proofs8 C14.Proofs9 C14.Proofs10.
 From GocqlV Require C14.ProofsLruSpec.
 
 (* ------------------------------------------------------------------------------------------- *)
@@ -198,7 +198,7 @@ Theorem C14_reprepare_succeeds : forall s e h ks en id meta,
     run s (reprepare_labels e (length (s_flights s)) id (e_nvals en) meta) = Some s' /\
     nth_error (s_execs s') e =
       Some (mkExec false h ks [en] 1 [Some (mkGot (e_stmt en) (length (s_flights s)) id (e_nvals en) meta)] (PDone ROk)) /\
-    s_log s' = EvResult e ROk :: EvSend e false h ks [(e_stmt en, Some id, e_nvals en)]
+    s_log s' = EvResult e ROk :: EvSend e false h ks [(e_stmt en, Some (id, meta), e_nvals en)]
                  :: EvPrepared (length (s_flights s)) id (e_nvals en) meta
                  :: EvPrepare (length (s_flights s)) (mkTriple h ks (e_stmt en))
                  :: evs ++ EvCreate (length (s_flights s)) (key_for (mkTriple h ks (e_stmt en))) :: s_log s.
@@ -223,9 +223,39 @@ Theorem C14_executor_holds_own_results : forall max ls s e x,
 Proof. exact executor_holds_lemma. Qed.
 Print Assumptions C14_executor_holds_own_results.
 
-(* "never a foreign id" + "a wrong number of bound values is ... not sent", over the history: every
-   prepared id in an EXECUTE / BATCH frame was returned earlier by the server for a PREPARE whose cache key
-   is the key of that statement/keyspace/host, and the frame has as many values as that answer has bind columns *)
+(* Progress under fair scheduling ("... and the query still succeeds", for every schedule rather than as the
+   existence of one).  e is a query executor; [sane]: the server's PREPARE answers for e's statement name e's
+   number of values, the PREPARE e waits for has not failed, e has not failed.  [hostile] steps are: cancelling
+   e, answering e's EXECUTE with an error or UNPREPARED, failing a PREPARE of e's statement, answering one with
+   another value count.  [helps]: the next step of e itself or of the PREPARE it waits for (lookup, PREPARE
+   written, PREPARE answered, done closed, wake-up, EXECUTE written, EXECUTE answered).
+   (1) In every reachable state an unfinished sane e has an enabled helping step, and that step lowers
+   rank s e (a number <= 7): nobody - no other executor, no eviction, no failure of other statements - can
+   block it or push it back. *)
+Theorem C14_never_stuck : forall max ls0 s e x en,
+  run (init max) ls0 = Some s -> is_query s e x en -> sane s x en -> (forall r, x_phase x <> PDone r) ->
+  exists l s', helps s x en e l /\ ~ hostile s (key_for (x_triple x en)) (e_nvals en) e l /\
+               step s l = Some s' /\ (rank s' e < rank s e)%nat.
+Proof. exact never_stuck_lemma. Qed.
+Print Assumptions C14_never_stuck.
+
+(* (2) Along ANY schedule ls from a reachable state in which nothing hostile to e happens - every other
+   label is allowed, in any order and number: other executors, capacity evictions, failures and UNPREPARED
+   answers for others - if at least rank s e of the steps taken were helping steps at the time they were
+   taken (a fair scheduler takes the always-enabled helping step again and again, so every fair schedule
+   has such a prefix), e has finished successfully.  frun counts helping steps from below. *)
+Theorem C14_fair_schedule_success : forall max ls0 s e x en ls n s',
+  run (init max) ls0 = Some s -> is_query s e x en -> sane s x en ->
+  frun e en s ls n s' -> (rank s e <= n)%nat ->
+  exists x', nth_error (s_execs s') e = Some x' /\ x_phase x' = PDone ROk.
+Proof. exact fair_success_lemma. Qed.
+Print Assumptions C14_fair_schedule_success.
+
+(* "never a foreign id" + "with bind/result metadata of that statement" + "a wrong number of bound values is
+   ... not sent", over the history: every prepared id in an EXECUTE / BATCH frame was returned earlier by the
+   server for a PREPARE whose cache key is the key of that statement/keyspace/host, the metadata token the
+   executor marshals and decodes with is the one that came with that very answer, and the frame has as many
+   values as that answer has bind columns *)
 Theorem C14_id_belongs_to_key : forall max ls s, run (init max) ls = Some s ->
   sends_use_returned_ids (rev (s_log s)).
 Proof. exact sends_use_returned_ids_lemma. Qed.
@@ -243,10 +273,10 @@ Print Assumptions C14_key_for_injective.
    Refuted.key_for_collision_general_refuted shows the premise cannot be dropped. *)
 Theorem C14_id_belongs_to_statement : forall max n ks0 ls s,
   Forall (label_uniform n ks0) ls -> run (init max) ls = Some s ->
-  forall h1 h2 e b host ks items st id nv,
+  forall h1 h2 e b host ks items st id meta nv,
     rev (s_log s) = h1 ++ EvSend e b host ks items :: h2 ->
-    In (st, Some id, nv) items ->
-    id_was_returned_for_statement h1 (mkTriple host ks st) id nv.
+    In (st, Some (id, meta), nv) items ->
+    id_was_returned_for_statement h1 (mkTriple host ks st) id meta nv.
 Proof. exact sends_use_own_ids_lemma. Qed.
 Print Assumptions C14_id_belongs_to_statement.
 
@@ -323,6 +353,38 @@ Example C14_nonvacuous_reprepare :
 Proof.
   eexists. eexists. eexists. eexists. split; [vm_compute; reflexivity|].
   repeat split; try reflexivity. eexists. split; [reflexivity|]. vm_compute. discriminate.
+Qed.
+
+
+(* the premises of the fairness theorems: a state right after UNPREPARED evicted the entry (executor 0 starts
+   over, executor 1 with the wrong count is still around), sane, and a schedule with 7 helping steps mixed
+   with other steps *)
+Definition ex_fair_prefix : list label := ex_ok ++ [LReplyUnprep 0 [1; 2; 3]].
+Definition ex_fair_sched : list label :=
+  [LLookup 0; LWake 1; LPrepSend 1; LSpawn false ex_h ex_ks [ex_en]; LPrepOk 1 [9] 2 6; LLookup 2; LClose 1; LWake 0; LWake 2; LSend 0; LSend 2; LReplyOk 0].
+
+Example C14_nonvacuous_fair :
+  exists s x s', run (init 1) ex_fair_prefix = Some s /\ is_query s 0 x ex_en /\ sane s x ex_en /\ rank s 0 = 7%nat /\
+    frun 0 ex_en s ex_fair_sched 7 s'.
+Proof.
+  eexists. eexists. eexists. split; [vm_compute; reflexivity|].
+  split; [repeat split|]. split.
+  { apply sane_at_start; [reflexivity|]. intros f fl HF HK id cnt meta HS.
+    destruct f as [|[|f]]; vm_compute in HF; inversion HF; subst fl; vm_compute in HS; inversion HS; reflexivity. }
+  split; [reflexivity|].
+  eapply fr_help; [reflexivity|reflexivity|vm_compute; reflexivity|].
+  eapply fr_other; [reflexivity|intros X; exact X|vm_compute; reflexivity|].
+  eapply fr_help; [reflexivity|reflexivity|vm_compute; reflexivity|].
+  eapply fr_other; [reflexivity|intros X; exact X|vm_compute; reflexivity|].
+  eapply fr_help; [reflexivity|exists [9], 6; reflexivity|vm_compute; reflexivity|].
+  eapply fr_other; [reflexivity|intros X; exact X|vm_compute; reflexivity|].
+  eapply fr_help; [reflexivity|reflexivity|vm_compute; reflexivity|].
+  eapply fr_help; [reflexivity|reflexivity|vm_compute; reflexivity|].
+  eapply fr_other; [reflexivity|intros X; exact X|vm_compute; reflexivity|].
+  eapply fr_help; [reflexivity|reflexivity|vm_compute; reflexivity|].
+  eapply fr_other; [reflexivity|intros X; exact X|vm_compute; reflexivity|].
+  eapply fr_help; [reflexivity|reflexivity|vm_compute; reflexivity|].
+  apply fr_nil.
 Qed.
 
 (* the default configuration: ClusterConfig.MaxPreparedStmts = defaultMaxPreparedStmts is a positive bound *)
